@@ -351,6 +351,18 @@ def _run_case(case, ctx):
             if case["rel"] == "same":
                 one = kern(x1).to_dense()
                 ctx.close("kernel_value_one_arg", one, ref.expand(one.shape), tol, cls=cls)
+            if not case.get("f32") and case["rel"] in ("diff", "same") and spec["k"] not in ("index", "hamming", "gskl", "additive_structure", "product_structure"):
+                # other documented ways of asking for the same matrix
+                if case["rel"] == "same":
+                    ctx.close("call_variants", kern(x1, x2=None).to_dense(), got, (0.0, 1e-12), cls=cls + ":x2=None")
+                    ctx.close("call_variants", kern(x1, x1, diag=False).to_dense(), got, (0.0, 1e-12), cls=cls + ":diag=False")
+                else:
+                    ctx.close("call_variants", kern(x1, x2, diag=False).to_dense(), got, (0.0, 1e-12), cls=cls + ":diag=False")
+                    ctx.close("call_variants", kern(x1=x1, x2=x2).to_dense(), got, (0.0, 1e-12), cls=cls + ":keywords")
+                if d == 1 and not case["xbatch"] and not spec.get("ard") and spec["k"] not in ("cylindrical", "additive_structure", "product_structure", "newton_girard", "sm", "spectral_delta", "arc"):
+                    # one-dimensional inputs given as vectors: the library adds the feature dimension itself
+                    v1, v2 = x1.detach().squeeze(-1), x2.detach().squeeze(-1)
+                    ctx.close("call_variants", kern(v1, v2).to_dense(), got, (1e-12, 1e-12), cls=cls + ":vector_inputs")
             if not case.get("f32") and case["regime"] == "random" and path == "nograd":
                 # the documented function of the CURRENT parameters: evaluate in evaluation mode, load other parameter
                 # values (no train() in between), evaluate again
